@@ -23,7 +23,7 @@ from vlib import refmath as R
 
 ID = 'C26'
 LEVEL = 'exploration'
-RULE = ('(a) find_prime_root(l, blum, n): every l in 0..256 (quick; thorough 0..768) x blum x n in {1,2} and '
+RULE = ('(a) find_prime_root(l, blum, n): every l in 0..256 (quick; thorough 0..768, sparsely to 2048) x blum x n in {1,2} and '
         'x n in {3,5,7,11,13,257} enumerated, plus generated l up to 1024 and n up to 2^64 (primes and '
         'composites); (b) SecInt/SecFxp(l, f, [p], [n]) via simulator runtimes for generated (l<=256, f<=l, '
         'k in 1..128, m<=9, t) and an enumerated grid of tiny (l,f,k) x m around the field prime x t; '
@@ -37,7 +37,7 @@ ASSUMPTIONS = ['independent primality oracle: vlib/refmath.is_prime (determinist
                'n > 2 requires blum=True and l <= 2 with blum=False requires n = 1 (asserted preconditions)',
                'a type refused by the assertion "m < field order" (threshold > 0) is not a type with a too '
                'small field; python -O is not considered']
-CASE_TIMEOUT = 150
+CASE_TIMEOUT = 900  # generous: the machine may be heavily shared; typical cases take milliseconds
 
 boot(numpy=False)
 from mpyc import finfields  # noqa: E402
@@ -271,9 +271,12 @@ def enumerate_cases(tier):
     top = 256 if tier == 'quick' else 768
     for l in range(0, top + 1):
         yield dict(kind='fprcell', l=l, seed=1)
-    extra = range(264, 513, 8) if tier == 'quick' else list(range(800, 1025, 32)) + [1536, 2048]
+    extra = range(264, 513, 8) if tier == 'quick' else range(800, 1025, 32)
     for l in extra:
         yield dict(kind='fprcell', l=l, seed=1)
+    if tier == 'thorough':  # single calls (a whole cell at these sizes costs minutes of pure-Python Miller-Rabin)
+        for l, n in ((1536, 2), (1536, 257), (2048, 2)):
+            yield dict(kind='fpr', l=l, blum=True, n=n, seed=1)
     # tiny (l, f, k): number of parties around the field prime, all thresholds of interest
     maxbits = 6 if tier == 'quick' else 8
     for st_ in ('int', 'fxp'):
